@@ -42,6 +42,9 @@ type RaftGroup struct {
 	processSnapshotFn ProcessFn
 	snapshotFn        SnapshotFn
 
+	started int32
+	stopped chan struct{}
+
 	raft          etcdRaft.Node
 	raftConfState *raftpb.ConfState
 	raftLeaderId  uint64
@@ -131,6 +134,7 @@ func NewRaftGroup(id uuid.UUID, nodeIds []uint64, storage wal.WAL, transport *Ra
 		processFn:         nil,
 		processSnapshotFn: nil,
 		snapshotFn:        nil,
+		stopped:           make(chan struct{}),
 		raft:              raftNode,
 		wal:               storage,
 		log:               logger,
@@ -153,6 +157,7 @@ func (this *RaftGroup) Start() error {
 			return err
 		}
 	}
+	atomic.StoreInt32(&this.started, 1)
 	go this.run()
 	return nil
 }
@@ -160,6 +165,11 @@ func (this *RaftGroup) Start() error {
 func (this *RaftGroup) Stop() {
 	this.raft.Stop()
 	this.ctxCancel()
+	// Wait for the ready loop to exit. The caller may delete the group's log next
+	// and the loop must not be in the middle of saving to it.
+	if atomic.LoadInt32(&this.started) == 1 {
+		<-this.stopped
+	}
 
 	if err := this.transport.removeGroup(this.id); err != nil {
 		this.log.Error(err)
@@ -216,6 +226,8 @@ func (this *RaftGroup) ProposeLeave(nodeId uint64) error {
 }
 
 func (this *RaftGroup) run() {
+	defer close(this.stopped)
+
 	ticker := time.NewTicker(100 * time.Millisecond)
 	defer ticker.Stop()
 
